@@ -123,6 +123,8 @@ Sub-checks (sub = ...)
              independent, dependent). deep copies: the object touched = fresh model with the target copula, the other one = fresh
              model with the source copula, bit for bit, all queries of `reparam`. copy.copy shares the copula object: after a
              setter both = fresh target model; `.copula =` on one of the two is recorded, not judged (see below).
+             quick: the Levy models' margin tuples (2 pairs, 1 triple) x 4 kinds x 4 targets x {copy, original}; thorough: every
+             margin tuple, Levy and exponential.
   density    (Clayton) mass of an off-axis finite rectangle = 2-d quadrature of the implied joint density
              d2F/du1du2 (U_1(x_1), U_2(x_2)) nu_1(x_1) nu_2(x_2) with the mixed derivative of the Clayton formula written
              here; for triples through the 2-margins (which are Clayton with eta = 1/2: verified against the
